@@ -4,7 +4,7 @@ from .. import simprop
 ID = "C06"
 FAMILY = "C06"
 VARIANTS = ("asan",)
-BUDGET = {"quick": dict(examples=16000, seconds=60), "thorough": dict(examples=400000, seconds=540)}
+BUDGET = {"quick": dict(examples=80000, seconds=55), "thorough": dict(examples=2000000, seconds=540)}
 NONTRIVIAL = {'reprioritised-waiter', 'c06-three-waiters'}
 PROFILES = [(4, 'queueing'), (1, 'mixed')]
 RULE = ("Hypothesis-generated scenarios (profile queueing 80%, mixed 20%): 3-12 processes queueing on resources, pools, buffers (both ends), object and priority queues (both ends) and conditions, arrivals on distinct and equal instants, priorities incl. int64 extremes, set_priority on blocked processes, departures by grant / interrupt / timeout. Oracle: whenever a waiter W that had to wait is served (its call returns SUCCESS), no process V may still be blocked on the same waiting list that started waiting at a strictly earlier instant, whose priority did not change in this instant, and that has higher priority than W or equal priority and an earlier start (for conditions V's predicate must have been true at a signal of the instant). Non-trivial = at least three simultaneous waiters on one list when someone is served, or a blocked process was reprioritised. distinct = SHA-1 of the scenario text.")
